@@ -97,3 +97,434 @@ theorem checkVlenLoop_true (M : Nat) : ∀ (l : List Nat) (prod : Nat), 0 < prod
     exact ih (prod * s) (Nat.mul_pos hp hs) (fun x hx => hnz x (by simp [hx])) (by rw [Nat.mul_assoc]; exact hle)
 
 end PnVerif.Header
+
+namespace PnVerif.Header
+open PnVerif.Spec PnVerif.Layout
+
+theorem dimFactor_eq (d : Schema) (id : Nat) (h : id < d.dims.length) :
+    d.dimFactor id = if dimSize d.dims id = 0 then 1 else dimSize d.dims id := by
+  have hget : d.dims[id]? = some d.dims[id] := List.getElem?_eq_getElem h
+  simp [Schema.dimFactor, dimSize, hget]
+
+theorem foldr_factor (d : Schema) : ∀ (ids : List Nat), (∀ id ∈ ids, id < d.dims.length) →
+    (∀ id ∈ ids, dimSize d.dims id ≠ 0) →
+    (ids.map (dimSize d.dims)).foldr (· * ·) 1 = (ids.map d.dimFactor).foldr (· * ·) 1 := by
+  intro ids
+  induction ids with
+  | nil => intro _ _; rfl
+  | cons a t ih =>
+    intro hr hz
+    simp only [List.map_cons, List.foldr_cons]
+    rw [ih (fun x hx => hr x (by simp [hx])) (fun x hx => hz x (by simp [hx])), dimFactor_eq d a (hr a (by simp))]
+    simp [hz a (by simp)]
+
+/-- the list ncmpio_NC_check_vlen multiplies, and its product -/
+theorem vlen_list (d : Schema) (v : Var)
+    (hr : (∀ id ∈ v.dimids, id < d.dims.length) ∧ (∀ id ∈ v.dimids.drop 1, d.isRecDim id = false)) :
+    (∀ s ∈ (if isRecShape (shapeS d v) then (shapeS d v).drop 1 else shapeS d v), s ≠ 0) ∧
+    (if isRecShape (shapeS d v) then (shapeS d v).drop 1 else shapeS d v).foldr (· * ·) 1 = d.nelems v := by
+  have hz : ∀ id ∈ v.dimids.drop 1, dimSize d.dims id ≠ 0 := by
+    intro id hid
+    have hlt := hr.1 id (List.mem_of_mem_drop hid)
+    have := hr.2 id hid
+    rw [isRecDim_eq d id hlt] at this
+    simpa using this
+  unfold shapeS Schema.nelems
+  cases hv : v.dimids with
+  | nil => simp [isRecShape]
+  | cons id ids =>
+    rw [hv] at hz hr
+    simp only [List.drop_succ_cons, List.drop_zero] at hz
+    have hrin : ∀ x ∈ ids, x < d.dims.length := fun x hx => hr.1 x (by simp [hx])
+    have hid := hr.1 id (by simp)
+    simp only [List.map_cons, isRecShape]
+    by_cases h0 : dimSize d.dims id = 0
+    · simp only [h0, beq_self_eq_true, if_true, List.drop_succ_cons, List.drop_zero, List.foldr_cons]
+      refine ⟨?_, ?_⟩
+      · intro s hs
+        obtain ⟨x, hx, rfl⟩ := List.mem_map.mp hs
+        exact hz x hx
+      · rw [foldr_factor d ids hrin hz, dimFactor_eq d id hid]; simp [h0]
+    · have hb : (dimSize d.dims id == 0) = false := by simp [h0]
+      simp only [hb, Bool.false_eq_true, if_false, List.foldr_cons]
+      refine ⟨?_, ?_⟩
+      · intro s hs
+        rcases List.mem_cons.mp hs with rfl | hs'
+        · exact h0
+        · obtain ⟨x, hx, rfl⟩ := List.mem_map.mp hs'
+          exact hz x hx
+      · rw [foldr_factor d ids hrin hz, dimFactor_eq d id hid]; simp [h0]
+
+theorem size_pos (t : NcType) : 0 < t.size := by cases t <;> simp [NcType.size]
+
+theorem checkVlen_small (d : Schema) (v : Var) (M : Nat)
+    (hr : (∀ id ∈ v.dimids, id < d.dims.length) ∧ (∀ id ∈ v.dimids.drop 1, d.isRecDim id = false))
+    (hs : d.nelems v * v.xtype.size ≤ M) : checkVlen v.xtype.size (shapeS d v) M = true := by
+  obtain ⟨h1, h2⟩ := vlen_list d v hr
+  unfold checkVlen
+  apply checkVlenLoop_true M _ _ (size_pos _) h1
+  rw [h2, Nat.mul_comm]; exact hs
+
+/-- ncmpio_NC_var_shape64 accepts every valid variable and computes the specified length -/
+theorem varShape64_ok (d : Schema) (v : Var)
+    (hr : (∀ id ∈ v.dimids, id < d.dims.length) ∧ (∀ id ∈ v.dimids.drop 1, d.isRecDim id = false))
+    (hs : d.nelems v * v.xtype.size ≤ 2147483644) :
+    varShape64 d.dims v = .ok (shapeS d v, d.varLen v) := by
+  have hc := checkVlen_small d v (NC_MAX_INT64 - 3) hr (by unfold NC_MAX_INT64; omega)
+  have h1 : ∃ len, varShape64 d.dims v = .ok (shapeS d v, len) := by
+    unfold varShape64
+    rw [shapeOf_var d v hr]
+    simp only [hc, not_true_eq_false, if_false]
+    exact ⟨_, rfl⟩
+  obtain ⟨len, h1⟩ := h1
+  rw [h1, varShape64_spec d v _ _ h1]
+
+end PnVerif.Header
+
+namespace PnVerif.Header
+open PnVerif.Spec PnVerif.Layout
+
+/-- a variable the specification's layout rules allow -/
+def VarValid (d : Schema) (v : Var) : Prop :=
+  ((∀ id ∈ v.dimids, id < d.dims.length) ∧ (∀ id ∈ v.dimids.drop 1, d.isRecDim id = false)) ∧
+  d.nelems v * v.xtype.size ≤ 2147483644
+
+def lastFixedEnd (d : Schema) : List Var → Nat → Nat
+  | [], e => e
+  | v :: vs, e => if d.isRecVar v then lastFixedEnd d vs e else lastFixedEnd d vs (v.begin + d.varLen v)
+
+def firstOf (d : Schema) (wantRec : Bool) : List Var → Option Var
+  | [] => none
+  | v :: vs => if d.isRecVar v = wantRec then some v else firstOf d wantRec vs
+
+def recLenSum (d : Schema) : List Var → Nat
+  | [] => 0
+  | v :: vs => (if d.isRecVar v then d.varLen v else 0) + recLenSum d vs
+
+def recInfo (d : Schema) (v : Var) : Nat × Nat × Nat := (v.begin, d.varLen v, dsizes0 (shapeS d v) * v.xtype.size)
+
+theorem cvsLoop_ok (d : Schema) : ∀ (vs : List Var) (st : CvsState), (∀ v ∈ vs, VarValid d v) →
+    ∃ st', cvsLoop d.dims vs st = .ok st' ∧
+      st'.beginRec = lastFixedEnd d vs st.beginRec ∧
+      st'.recsize = st.recsize + recLenSum d vs ∧
+      st'.firstVar = (match st.firstVar with | some x => some x | none => (firstOf d false vs).map (·.begin)) ∧
+      st'.firstRec = (match st.firstRec with | some x => some x | none => (firstOf d true vs).map (recInfo d)) ∧
+      st'.shapes = st.shapes ++ vs.map (shapeS d) ∧
+      st'.lens = st.lens ++ vs.map d.varLen := by
+  intro vs
+  induction vs with
+  | nil =>
+    intro st _
+    refine ⟨st, rfl, rfl, by simp [recLenSum], ?_, ?_, by simp, by simp⟩
+    · cases st.firstVar <;> rfl
+    · cases st.firstRec <;> rfl
+  | cons v vs ih =>
+    intro st hv
+    have hvv := hv v (by simp)
+    have hsh := varShape64_ok d v hvv.1 hvv.2
+    have hrec := isRecShape_eq d v hvv.1.1
+    simp only [cvsLoop, hsh]
+    cases hr : d.isRecVar v with
+    | true =>
+      rw [hr] at hrec
+      simp only [hrec, if_true]
+      obtain ⟨st', h1, h2, h3, h4, h5, h6, h7⟩ := ih { st with shapes := st.shapes ++ [shapeS d v], lens := st.lens ++ [d.varLen v], firstRec := (match st.firstRec with | none => some (v.begin, d.varLen v, dsizes0 (shapeS d v) * v.xtype.size) | some x => some x), recsize := st.recsize + d.varLen v } (fun x hx => hv x (by simp [hx]))
+      refine ⟨st', h1, ?_, ?_, ?_, ?_, ?_, ?_⟩
+      · rw [h2]; simp [lastFixedEnd, hr]
+      · rw [h3]; simp [recLenSum, hr]; omega
+      · rw [h4]; simp only [firstOf, hr]
+        cases st.firstVar <;> simp
+      · rw [h5]; simp only [firstOf, hr]
+        cases st.firstRec <;> simp [recInfo]
+      · rw [h6]; simp
+      · rw [h7]; simp
+    | false =>
+      rw [hr] at hrec
+      simp only [hrec, Bool.false_eq_true, if_false]
+      obtain ⟨st', h1, h2, h3, h4, h5, h6, h7⟩ := ih { st with shapes := st.shapes ++ [shapeS d v], lens := st.lens ++ [d.varLen v], firstVar := (match st.firstVar with | none => some v.begin | some x => some x), beginRec := v.begin + d.varLen v } (fun x hx => hv x (by simp [hx]))
+      refine ⟨st', h1, ?_, ?_, ?_, ?_, ?_, ?_⟩
+      · rw [h2]; simp [lastFixedEnd, hr]
+      · rw [h3]; simp [recLenSum, hr]
+      · rw [h4]; simp only [firstOf, hr]
+        cases st.firstVar <;> simp
+      · rw [h5]; simp only [firstOf, hr]
+        cases st.firstRec <;> simp
+      · rw [h6]; simp
+      · rw [h7]; simp
+
+end PnVerif.Header
+
+namespace PnVerif.Header
+open PnVerif.Spec PnVerif.Layout
+
+theorem chain_mono (d : Schema) (w : Bool) : ∀ (vs : List Var) (prev e : Nat),
+    d.chainFrom w vs prev = some e → prev ≤ e := by
+  intro vs
+  induction vs with
+  | nil => intro prev e h; simp only [Schema.chainFrom, Option.some.injEq] at h; omega
+  | cons v vs ih =>
+    intro prev e h
+    simp only [Schema.chainFrom] at h
+    split at h
+    · exact ih _ _ h
+    · split at h
+      · contradiction
+      · have := ih _ _ h; omega
+
+theorem chain_fixed (d : Schema) : ∀ (vs : List Var) (prev e : Nat), d.chainFrom false vs prev = some e →
+    e = lastFixedEnd d vs prev ∧ (∀ f, firstOf d false vs = some f → prev ≤ f.begin ∧ f.begin ≤ e) := by
+  intro vs
+  induction vs with
+  | nil =>
+    intro prev e h
+    simp only [Schema.chainFrom, Option.some.injEq] at h
+    subst h
+    exact ⟨rfl, fun f hf => by simp [firstOf] at hf⟩
+  | cons v vs ih =>
+    intro prev e h
+    simp only [Schema.chainFrom] at h
+    cases hr : d.isRecVar v with
+    | true =>
+      simp only [hr, bne_self_eq_false, Bool.true_bne, Bool.not_false, if_true] at h
+      obtain ⟨i1, i2⟩ := ih _ _ h
+      refine ⟨by simp [lastFixedEnd, hr, i1], ?_⟩
+      intro f hf
+      simp only [firstOf, hr, Bool.true_eq_false, if_false] at hf
+      exact i2 f hf
+    | false =>
+      simp only [hr, bne_self_eq_false, Bool.false_eq_true, if_false] at h
+      split at h
+      · contradiction
+      · rename_i hlt
+        obtain ⟨i1, _⟩ := ih _ _ h
+        have hm := chain_mono d false _ _ _ h
+        refine ⟨by simp [lastFixedEnd, hr, i1], ?_⟩
+        intro f hf
+        simp only [firstOf, hr, if_true, Option.some.injEq] at hf
+        subst hf
+        omega
+
+theorem chain_rec (d : Schema) : ∀ (vs : List Var) (prev e : Nat), d.chainFrom true vs prev = some e →
+    ∀ r, firstOf d true vs = some r → prev ≤ r.begin := by
+  intro vs
+  induction vs with
+  | nil => intro prev e _ r hr; simp [firstOf] at hr
+  | cons v vs ih =>
+    intro prev e h r hfr
+    simp only [Schema.chainFrom] at h
+    cases hr : d.isRecVar v with
+    | true =>
+      simp only [hr, bne_self_eq_false, Bool.false_eq_true, if_false] at h
+      split at h
+      · contradiction
+      · simp only [firstOf, hr, if_true, Option.some.injEq] at hfr
+        subst hfr
+        omega
+    | false =>
+      simp only [hr, Bool.false_bne, if_true] at h
+      simp only [firstOf, hr, Bool.false_eq_true, if_false] at hfr
+      exact ih _ _ h r hfr
+
+theorem firstOf_none_all (d : Schema) (w : Bool) : ∀ (vs : List Var), firstOf d w vs = none → ∀ v ∈ vs, d.isRecVar v = !w := by
+  intro vs
+  induction vs with
+  | nil => intro _ v hv; cases hv
+  | cons a t ih =>
+    intro h v hv
+    simp only [firstOf] at h
+    split at h
+    · contradiction
+    · rename_i hne
+      rcases List.mem_cons.mp hv with rfl | hv'
+      · cases w <;> cases hx : d.isRecVar v <;> simp_all
+      · exact ih h v hv'
+
+theorem hdrLen_pos (d : Schema) : 0 < Hdr.len d := by
+  unfold Hdr.len; simp only []; omega
+
+end PnVerif.Header
+
+namespace PnVerif.Header
+open PnVerif.Spec PnVerif.Layout
+
+/-- begin of the first variable of one kind, `x` if there is none -/
+def firstBegin (d : Schema) (w : Bool) (vs : List Var) (x : Nat) : Nat :=
+  ((firstOf d w vs).map (·.begin)).getD x
+
+/-- restarting a chain at the begin of its first member changes nothing -/
+theorem chain_restart (d : Schema) (w : Bool) : ∀ (vs : List Var) (prev e x : Nat), d.chainFrom w vs prev = some e →
+    d.chainFrom w vs (firstBegin d w vs x) = some (if (firstOf d w vs).isSome then e else x) := by
+  intro vs
+  induction vs with
+  | nil => intro prev e x _; simp [Schema.chainFrom, firstOf, firstBegin]
+  | cons v vs ih =>
+    intro prev e x h
+    simp only [Schema.chainFrom] at h ⊢
+    by_cases hq : d.isRecVar v = w
+    · have hb : (d.isRecVar v != w) = false := by simp [hq]
+      simp only [hb, Bool.false_eq_true, if_false] at h ⊢
+      simp only [firstBegin, firstOf, hq, if_true, Option.map_some, Option.getD_some, Option.isSome_some]
+      split at h
+      · contradiction
+      · simp only [Nat.lt_irrefl, if_false]; exact h
+    · have hb : (d.isRecVar v != w) = true := by simp [hq]
+      simp only [hb, if_true] at h ⊢
+      have := ih _ _ x h
+      simp only [firstBegin, firstOf, hq, if_false] at this ⊢
+      exact this
+
+/-- one pass of ncmpio_NC_check_voffs is the specification's chain test -/
+theorem voffsPass_chain (d : Schema) (w : Bool) : ∀ (vs : List Var) (prev : Nat),
+    voffsPass w (vs.map (fun v => (d.isRecVar v, v.begin, d.varLen v))) prev =
+      (match d.chainFrom w vs prev with | some e => .ok e | none => .error .enotnc) := by
+  intro vs
+  induction vs with
+  | nil => intro prev; rfl
+  | cons v vs ih =>
+    intro prev
+    simp only [List.map_cons, voffsPass, Schema.chainFrom]
+    by_cases hq : d.isRecVar v = w
+    · have hb : (d.isRecVar v != w) = false := by simp [hq]
+      have hn : ¬ d.isRecVar v ≠ w := by simp [hq]
+      simp only [hb, hn, Bool.false_eq_true, if_false]
+      split
+      · rfl
+      · exact ih _
+    · have hb : (d.isRecVar v != w) = true := by simp [hq]
+      have hn : d.isRecVar v ≠ w := hq
+      simp only [hb, hn, ne_eq, not_false_eq_true, if_true]
+      exact ih _
+
+/-- with every variable within the size limit, neither pass of ncmpio_NC_check_vlens counts one -/
+theorem vlensPass_none (ver M : Nat) (w : Bool) : ∀ (L : List (Nat × List Nat)) (last : Bool),
+    (∀ p ∈ L, checkVlen p.1 p.2 M = true) → ∃ l, vlensPass ver M w L 0 last = .ok (0, l) := by
+  intro L
+  induction L with
+  | nil => intro last _; exact ⟨last, rfl⟩
+  | cons p t ih =>
+    intro last h
+    obtain ⟨xsz, shape⟩ := p
+    simp only [vlensPass]
+    split
+    · exact ih last (fun q hq => h q (by simp [hq]))
+    · have := h (xsz, shape) (by simp)
+      simp only at this
+      simp only [this, not_true_eq_false, if_false]
+      exact ih false (fun q hq => h q (by simp [hq]))
+
+theorem checkVlens_ok (d : Schema) (hv : ∀ v ∈ d.vars, VarValid d v) :
+    checkVlens d.fmt.version ((d.vars.map (fun v => v.xtype.size)).zip (d.vars.map (shapeS d))) = .ok () := by
+  have hM : ∀ M, 2147483644 ≤ M → ∀ p ∈ (d.vars.map (fun v => v.xtype.size)).zip (d.vars.map (shapeS d)), checkVlen p.1 p.2 M = true := by
+    intro M hM p hp
+    rw [List.zip_map'] at hp
+    obtain ⟨v, hvm, rfl⟩ := List.mem_map.mp hp
+    have := hv v hvm
+    exact checkVlen_small d v M this.1 (by have := this.2; omega)
+  unfold checkVlens
+  split
+  · rfl
+  · have hmax : 2147483644 ≤ (if d.fmt.version ≥ 5 then NC_MAX_INT64 - 3 else if d.fmt.version = 2 then NC_MAX_UINT - 3 else NC_MAX_INT - 3) := by
+      unfold NC_MAX_INT64 NC_MAX_UINT NC_MAX_INT; split <;> (try split) <;> omega
+    simp only []
+    obtain ⟨l1, h1⟩ := vlensPass_none d.fmt.version _ false _ false (hM _ hmax)
+    obtain ⟨l2, h2⟩ := vlensPass_none d.fmt.version _ true _ false (hM _ hmax)
+    rw [h1]
+    simp only [Nat.lt_irrefl, if_false, Nat.zero_ne_one, false_and, gt_iff_lt, Nat.not_lt_zero]
+    split
+    · rfl
+    · rw [h2]
+      simp
+
+end PnVerif.Header
+
+namespace PnVerif.Header
+open PnVerif.Spec PnVerif.Layout
+
+theorem zip3_map (d : Schema) (vs : List Var) (hr : ∀ v ∈ vs, ∀ id ∈ v.dimids, id < d.dims.length) :
+    ((vs.map (shapeS d)).map isRecShape).zip ((vs.map (fun v => v.begin)).zip (vs.map d.varLen)) =
+      vs.map (fun v => (d.isRecVar v, v.begin, d.varLen v)) := by
+  induction vs with
+  | nil => rfl
+  | cons v t ih =>
+    simp only [List.map_cons, List.zip_cons_cons]
+    rw [ih (fun x hx => hr x (by simp [hx])), isRecShape_eq d v (hr v (by simp))]
+
+/-- Every schema whose layout the specification allows is accepted by the post-pass of
+    ncmpio_hdr_get_NC: compute_var_shape, ncmpio_NC_check_vlens and ncmpio_NC_check_voffs all succeed. -/
+theorem postPass_ok (d : Schema) (hv : d.LayoutValid (Hdr.len d)) : ∃ info, postPass d = .ok info := by
+  obtain ⟨hrefs, hsmall, e, hf, e', hr⟩ := hv
+  have hvalid : ∀ v ∈ d.vars, VarValid d v := fun v hm => ⟨hrefs v hm, hsmall v hm⟩
+  by_cases hnil : d.vars = []
+  · -- no variable: nothing is checked
+    unfold postPass computeVarShape
+    simp [hnil, checkVlens, checkVoffs]
+  · have hlen : ¬ d.vars.length = 0 := fun h0 => hnil (List.eq_nil_of_length_eq_zero h0)
+    obtain ⟨st, hst, s1, s2, s3, s4, s5, s6⟩ := cvsLoop_ok d d.vars
+      { beginRec := Hdr.len d, recsize := 0, firstVar := none, firstRec := none, shapes := [], lens := [] } hvalid
+    simp only [List.nil_append] at s3 s4 s5 s6
+    obtain ⟨c1, c2⟩ := chain_fixed d _ _ _ hf
+    have cm := chain_mono d false _ _ _ hf
+    have cr := chain_rec d _ _ _ hr
+    have hpos := hdrLen_pos d
+    -- begin_rec and begin_var as compute_var_shape sets them
+    have hbrdef : ∃ br, br = firstBegin d true d.vars e := ⟨_, rfl⟩
+    obtain ⟨br, hbrdef⟩ := hbrdef
+    have hbvdef : ∃ bv, bv = firstBegin d false d.vars br := ⟨_, rfl⟩
+    obtain ⟨bv, hbvdef⟩ := hbvdef
+    have hbr : e ≤ br := by
+      rw [hbrdef]; unfold firstBegin
+      cases hfr : firstOf d true d.vars with
+      | none => simp
+      | some r => simpa using cr r hfr
+    have hbv : Hdr.len d ≤ bv ∧ bv ≤ br := by
+      rw [hbvdef]; unfold firstBegin
+      cases hff : firstOf d false d.vars with
+      | none => simp; omega
+      | some f => have := c2 f hff; simp; omega
+    have hfin : ∃ rs, cvsFinish (Hdr.len d) st = .ok (bv, br, rs, d.vars.map (shapeS d), d.vars.map d.varLen) := by
+      have hbv' : st.firstVar.getD br = bv := by rw [s3, hbvdef]; rfl
+      unfold cvsFinish cvsRec
+      rw [s4, s1, ← c1, s5, s6]
+      cases hfr : firstOf d true d.vars with
+      | none =>
+        have hbre : br = e := by rw [hbrdef]; simp [firstBegin, hfr]
+        simp only [Option.map_none]
+        rw [← hbre, hbv']
+        have : ¬ (bv ≤ 0 ∨ Hdr.len d > bv ∨ br ≤ 0 ∨ bv > br) := by omega
+        simp only [this, if_false]
+        exact ⟨_, rfl⟩
+      | some r =>
+        have hbre : br = r.begin := by rw [hbrdef]; simp [firstBegin, hfr]
+        have hle : ¬ e > r.begin := by have := cr r hfr; omega
+        simp only [Option.map_some, recInfo, hle, if_false]
+        rw [← hbre, hbv']
+        have : ¬ (bv ≤ 0 ∨ Hdr.len d > bv ∨ br ≤ 0 ∨ bv > br) := by omega
+        simp only [this, if_false]
+        exact ⟨_, rfl⟩
+    obtain ⟨rs, hfin⟩ := hfin
+    have hcvs : computeVarShape d (Hdr.len d) = .ok (bv, br, rs, d.vars.map (shapeS d), d.vars.map d.varLen) := by
+      unfold computeVarShape
+      simp only [hlen, if_false, hst, hfin]
+    have hvl := checkVlens_ok d hvalid
+    -- check_voffs
+    have hz := zip3_map d d.vars (fun v hm => (hrefs v hm).1)
+    have hfix := chain_restart d false d.vars _ e br hf
+    have hrec := chain_restart d true d.vars _ e' e hr
+    rw [← hbvdef] at hfix
+    rw [← hbrdef] at hrec
+    have hvo : checkVoffs bv br ((d.vars.map (shapeS d)).filter isRecShape).length
+        (((d.vars.map (shapeS d)).map isRecShape).zip ((d.vars.map (fun v => v.begin)).zip (d.vars.map d.varLen))) = .ok () := by
+      rw [hz]
+      unfold checkVoffs
+      simp only [List.length_map, hlen, if_false]
+      rw [voffsPass_chain d false, voffsPass_chain d true, hfix, hrec]
+      have hle : ¬ br < (if (firstOf d false d.vars).isSome then e else br) := by
+        split <;> omega
+      by_cases h1 : d.vars.length - ((d.vars.map (shapeS d)).filter isRecShape).length = 0 <;>
+        by_cases h2 : ((d.vars.map (shapeS d)).filter isRecShape).length = 0 <;>
+        simp [h1, h2, hle]
+    refine ⟨{ xsz := Hdr.len d, beginVar := bv, beginRec := br, recsize := rs, numRecVars := ((d.vars.map (shapeS d)).filter isRecShape).length, shapes := d.vars.map (shapeS d), lens := d.vars.map d.varLen }, ?_⟩
+    unfold postPass
+    simp only [hcvs, hvl, hvo]
+
+end PnVerif.Header
